@@ -25,6 +25,12 @@ def main():
         elif prop in ("C10", "C16"):
             from . import c_ms_session
             rc = c_ms_session.run(prop, a.tier, seed)
+        elif prop == "C08":
+            from . import c_ms_wire
+            rc = c_ms_wire.run(prop, a.tier, seed)
+        elif prop in ("C14", "C15"):
+            from . import c_ms_store
+            rc = c_ms_store.run(prop, a.tier, seed)
         else:
             print("MACHINERY-FAILURE unknown property %s" % prop)
             rc = 2
